@@ -308,6 +308,12 @@ impl<'a> ReplyData<'a> {
         if self.data.is_none() {
             self.data = new_reply_data.data;
         }
+
+        // The payload is sent raw if any of the handlers marks it with `#[sv::payload(raw)]`,
+        // not only when the handler declared first does.
+        if !self.payload.is_payload_marked() && new_reply_data.payload.is_payload_marked() {
+            self.payload = new_reply_data.payload;
+        }
     }
 
     /// Emits success and error match arms for a single `ReplyId`.
